@@ -114,6 +114,41 @@ pub enum StepOut {
     Panic(PanicInfo),
 }
 
+impl PanicInfo {
+    /// Stable identification of a panic site for finding keys: file (no line, lines move with
+    /// every edit) + the message with digits and quoted values normalised.
+    pub fn tag(&self) -> String {
+        let file = self.loc.rsplit_once(':').map(|x| x.0).unwrap_or(&self.loc);
+        // standard-library sites: drop the toolchain-specific prefix
+        let file = match file.find("/library/") {
+            Some(p) if file.starts_with("/rustc/") => &file[p + 1..],
+            _ => file,
+        };
+        let mut msg = String::new();
+        let mut last_hash = false;
+        let fl = first_line(&self.msg);
+        let head = match fl.split_once(": ") {
+            Some((h, _)) if h.len() >= 10 => h.to_string(),
+            _ => fl,
+        };
+        for ch in head.chars() {
+            if ch.is_ascii_digit() {
+                if !last_hash {
+                    msg.push('#');
+                }
+                last_hash = true;
+            } else {
+                last_hash = false;
+                msg.push(if ch == '|' { '/' } else { ch });
+            }
+            if msg.len() >= 60 {
+                break;
+            }
+        }
+        format!("{file}({})", msg.trim())
+    }
+}
+
 impl StepOut {
     pub fn class(&self) -> &'static str {
         match self {
